@@ -983,7 +983,7 @@ impl<'a> World<'a> {
         };
         micro_http::verif::set_event_order(code);
         let owed_before: Vec<bool> = (0..self.clients.len()).map(|i| self.outstanding.iter().any(|o| o.client == i)).collect();
-        let due_before: Vec<RawFd> = (0..self.clients.len()).filter(|i| self.clients[*i].release_due).filter_map(|i| pre_server_fd[i]).filter(|fd| before.iter().any(|e| e.0 == *fd)).collect();
+        let due_before: Vec<RawFd> = (0..self.clients.len()).filter(|i| self.clients[*i].release_due && !owed_before[*i]).filter_map(|i| pre_server_fd[i]).filter(|fd| before.iter().any(|e| e.0 == *fd)).collect();
         let r = util::catch(|| self.server.as_mut().unwrap().requests());
         micro_http::verif::set_event_order(0);
         let batch = micro_http::verif::last_batch();
@@ -1098,10 +1098,14 @@ impl<'a> World<'a> {
             accepted_desc = descs.join(", ");
             accepted_trace = traces.join(", ");
         }
-        if matches!(&r, Ok(Ok(_))) {
+        if let Ok(Ok(reqs)) = &r {
+            // (nothing of this client's may be handed out by this very call either: an
+            // implementation may still deliver what arrived together with the hang-up)
+            let yielded_now: Vec<String> = reqs.iter().map(|q| q.inner().uri().get_abs_path().to_string()).collect();
             for (i, c) in self.clients.iter_mut().enumerate() {
                 if let Some(sfd) = pre_server_fd[i] {
-                    if c.closed && !owed_before[i] && batch.iter().any(|(b, _)| *b == sfd) {
+                    let yields_more = yielded_now.iter().any(|p| parse_tag(p).map_or(false, |t| t.0 == i));
+                    if c.closed && !owed_before[i] && !yields_more && batch.iter().any(|(b, _)| *b == sfd) {
                         c.release_due = true;
                     }
                 }
